@@ -1,7 +1,7 @@
 PROP = dict(
     id="C11",
     lean_modules=["TongoProofs.C11"],
-    gen=[],
+    gen=["AdnlConsts"],
     # the model IS the specification for these ops (frame layout, stream cipher continuity, handshake packet,
     # parameter slices): a disagreement is a violation with the op line as failing input
     spec_ops=("adnl.", "prim."),
@@ -22,6 +22,10 @@ PROP = dict(
          "every byte position 0..140 (inside / right behind the confirmation) and at random later positions: every packet must "
          "come out of Responses(). thorough adds the 8 MiB-64 / 8 MiB-63 payloads once.",
     trusted_base=[
+        "translator AdnlConsts (go/ast, harness/cmd/extract/adnlconsts.go): params slice bounds, cipher key/nonce pairing, handshake key/iv "
+        "slices and packet layout, key-id prefix, frame length bounds, TL magics regenerated into TongoGen/AdnlConsts.lean with 7 decide-d "
+        "obligations 'code constant = spec constant' (spec: TongoModel/AdnlConstsSpec.lean, magics recomputed as CRC-32 by the kernel); "
+        "theorem model_uses_spec_constants ties the hand model to the same spec constants",
         "hand model lean/TongoModel/Adnl.lean tied to liteclient/adnl.go, encrypted_conn.go by exact byte comparison on every run "
         "(pure ops through the standard line diff; bytes observed on the real socket are handed to the compiled model by the "
         "executor itself, harness/cmd/vh/modelproc.go, because client nonces/keys are random at run time)",
